@@ -315,9 +315,10 @@ PROPS['C23'] = {
     ],
 }
 PROPS['C04'] = {
-    'units': ['print', 'solver', 'solver_wf'],
-    'functions': ['built_in_print.rs::format_for_print_pred', 'built_in_print.rs::next_solution_print', 'built_in_print_list.rs::next_solution_print_list'],
-    'oracles': {'*': 'c04_format', '#trace': 'c04_prog', 'built_in_print_list.rs::next_solution_print_list': 'c04_print_list'},
+    'units': ['print', 'solver', 'solver_wf', 'slist'],
+    'functions': ['built_in_print.rs::format_for_print_pred', 'built_in_print.rs::next_solution_print', 'built_in_print_list.rs::next_solution_print_list', 'built_in_print_list.rs::format_slist'],
+    'oracles': {'*': 'c04_format', '#trace': 'c04_prog', 'built_in_print_list.rs::next_solution_print_list': 'c04_print_list',
+                'built_in_print_list.rs::format_slist': 'c04_print_list', '#list_text': 'c04_print_list', '#walk_inv': 'c04_print_list', '#walk_done': 'c04_print_list', '#not_a_list': 'c04_print_list'},
     'bounded': [('c04_print_list', 'supplementary to the proof, and the source of witnesses: print_list on 13 argument lists under 8 sets of bindings (atoms, numbers, variables bound to atoms / lists / through chains, lists with bound tail variables, nested, '
                                    'the same variable twice, no argument) against the text the statement gives - one line per argument in order, a list as its elements, ",\\n" before a list that is not the first argument; lists with an unbound variable inside are skipped (observation, 8.35)'),
                 ('c04_prog', 'the trace sentence itself, BOUNDED: the text written during the whole search of 2000 random stratified programs per seed (print / nl in rule bodies with and / or groups, not, fail, comparisons; no cut) '
@@ -329,7 +330,7 @@ PROPS['C04'] = {
         'next_solution_print_list writes one line per argument, in argument order and each once - a variable shown as the end of its binding chain, a list as the text format_slist gives for it, preceded by ",\\n" after the first argument - and nothing when there is no argument (#lines_in_order, #lines_inv, #one_event_per_line); '
         'a print / print_list / nl node writes only on its first request and never again afterwards; print and nl write at most one text per request (#once, #one_output on next_solution_bip; done nodes write nothing: C05)',
         'NOT PROVED, bounded only: "exactly what the reference depth-first search writes ... in execution order" - the output trace of a whole search is a whole-history statement (as C01); c04_prog compares it with a reference interpreter on random programs, labelled bounded',
-        'format_slist (the text of one list: 60 lines of string building that follow tail variables through the bindings) is not under contract: its result is an uninterpreted function of the list and the bindings (ASSUMED)',
+        'format_slist (the text of one list) is PROVED since 8.49 on its verbatim body (unit slist): when the walk through the list ends, the text is the elements of the list - continuing through bound tail variables - each shown with its bound value (Display uninterpreted), separated by ", "; an element without a value shows nothing (#list_text, #walk_inv). In unit print the callee is an uninterpreted function of the list and the bindings (T10), so the two proofs compose through that assumption',
         'next_solution_print and next_solution_print_list require acyclic bindings: PROVED at the solver\'s call sites in unit solver_wf (C08, 8.37); Display of a term is uninterpreted (disp)',
         'observation: a cut inside a parenthesised group also stops backtracking into the goals to its right inside the group once control has left the group (documented: "disabled on the cut and all its ancestors"); '
         'the textbook search would retry them, so their output can differ - the trace oracle therefore generates programs without cut',
